@@ -1,7 +1,12 @@
 package drivers
 
 import (
+	"bytes"
+	"context"
+	"crypto/tls"
 	"encoding/json"
+	"net"
+	"sync"
 	"time"
 
 	"verifharness/memnet"
@@ -22,6 +27,7 @@ type gateCase struct {
 	Side string   `json:"side"`
 	Cfg  string   `json:"cfg"`
 	Hist []string `json:"hist"`
+	Note string   `json:"note"` // "notify": the HandshakeNotify scenario (set when a recorded scenario is re-run)
 }
 type gateWrote struct {
 	Cmd int `json:"cmd"`
@@ -52,6 +58,7 @@ func registerApp(s *smServer, cfg string) {
 		m.HandleIdx(diam.CommandIndex{AppID: 4, Code: 272, Request: true}, s.record("CCR"))
 		m.HandleIdx(diam.CommandIndex{AppID: 4, Code: 272, Request: false}, s.record("CCA"))
 		m.HandleIdx(diam.CommandIndex{AppID: 16777251, Code: 316, Request: true}, s.record("ULR"))
+		m.HandleIdx(diam.CommandIndex{AppID: 0, Code: 280, Request: false}, s.record("DWA"))
 	default:
 		m.HandleFunc("CCR", s.record("CCR"))
 		m.Handle("CCA", s.record("CCA"))
@@ -139,6 +146,8 @@ func runGate(id int, c *gateCase) gateLine {
 	var s *smServer
 	outOff := 0
 	var cerHbH uint32 = 1
+	var pcA *memnet.Conn
+	var cerA uint32
 	if c.Side == "server" {
 		local := ""
 		if c.Cfg == "noaddr" {
@@ -161,6 +170,26 @@ func runGate(id int, c *gateCase) gateLine {
 		defer s.shutdown()
 		cli := &sm.Client{Handler: s.SM, MaxRetransmits: 0, RetransmitInterval: 400 * time.Millisecond,
 			AuthApplicationID: []*diam.AVP{diam.NewAVP(avp.AuthApplicationID, avp.Mbit, 0, datatype.Unsigned32(4))}}
+		for _, h := range c.Hist {
+			if h == "dup_other" && pcA == nil {
+				// another connection of the same Client, established before the one under observation is dialled
+				pcA = memnet.NewConn()
+				pcA.SetLocal("10.0.0.9:3868")
+				pcA.OnWrite = func(k int, b []byte) memnet.WriteOutcome {
+					if ms, _ := splitMsgs(b); len(ms) == 1 && ms[0].Cmd == 257 {
+						cerA = ms[0].HbH
+						go pcA.Feed(buildCEA(ms[0].HbH, ms[0].E2E, 2001))
+					}
+					return memnet.WriteOutcome{N: -1}
+				}
+				if cA, err := cli.NewConn(pcA, "10.0.0.2:3868"); err != nil || cA == nil {
+					l.Note = "the other connection's handshake failed"
+					return l
+				}
+				pcA.WaitReaderBlocked(time.Second)
+				defer pcA.Close()
+			}
+		}
 		go cli.NewConn(s.Conn, "10.0.0.2:3868")
 		if !s.Conn.WaitOut(20, 3*time.Second) {
 			l.Note = "no CER written"
@@ -182,7 +211,11 @@ func runGate(id int, c *gateCase) gateLine {
 		if name == "cea_ok" || name == "cea_fail" {
 			hbh = cerHbH
 		}
-		if !s.Conn.Closed() {
+		if name == "dup_other" && pcA != nil {
+			pcA.Feed(buildCEA(cerA, cerA, 2001))
+			pcA.WaitReaderBlocked(time.Second)
+			time.Sleep(2 * time.Millisecond) // (a dial wrongly released by it needs a moment to return)
+		} else if !s.Conn.Closed() {
 			if name == "cer_ok_wfail" {
 				// the transport refuses the next write (permanent error, nothing accepted)
 				s.Conn.OnWrite = func(int, []byte) memnet.WriteOutcome {
@@ -230,7 +263,156 @@ func Gate(a Args) error {
 			return err
 		}
 		id++
+		if c.Note == "notify" {
+			out.Emit(runGateNotify(id))
+			return nil
+		}
 		out.Emit(runGate(id, &c))
+		if id == 1 {
+			for k := 0; k < 3; k++ {
+				id++
+				out.Emit(runGateNotify(id))
+			}
+		}
 		return nil
 	})
+}
+
+// ---- an application that derives its own context when the handshake is announced
+
+// schedConn is a diam.Conn of the test's own whose SetContext calls are observable: the application goroutine
+// holds its own SetContext back until the library has stored what it stores when a CER is accepted.
+type schedConn struct {
+	mu      sync.Mutex
+	ctx     context.Context
+	out     []byte
+	closed  bool
+	libSet  chan struct{} // a SetContext call that is not the application's
+	appRead chan struct{} // closed when the application has read the context it derives its own from
+	byApp   bool
+}
+
+func (c *schedConn) Write(b []byte) (int, error) {
+	c.mu.Lock()
+	c.out = append(c.out, b...)
+	c.mu.Unlock()
+	return len(b), nil
+}
+func (c *schedConn) WriteStream(b []byte, _ uint) (int, error) { return c.Write(b) }
+func (c *schedConn) Close()                                    { c.mu.Lock(); c.closed = true; c.mu.Unlock() }
+func (c *schedConn) LocalAddr() net.Addr                       { return pipeAddr{} }
+func (c *schedConn) RemoteAddr() net.Addr                      { return pipeAddr{} }
+func (c *schedConn) TLS() *tls.ConnectionState                 { return nil }
+func (c *schedConn) Dictionary() *dict.Parser                  { return dict.Default }
+func (c *schedConn) Connection() net.Conn                      { return nil }
+func (c *schedConn) Context() context.Context {
+	c.mu.Lock()
+	defer c.mu.Unlock()
+	if c.ctx == nil {
+		return context.Background()
+	}
+	return c.ctx
+}
+func (c *schedConn) SetContext(ctx context.Context) {
+	c.mu.Lock()
+	app := c.byApp
+	c.mu.Unlock()
+	if !app {
+		// scheduling gate: a store by the library is held until the application (if it has been notified already)
+		// has read the context; a library that stores before it notifies just waits out the bound
+		select {
+		case <-c.appRead:
+		case <-time.After(40 * time.Millisecond):
+		}
+	}
+	c.mu.Lock()
+	c.ctx = ctx
+	c.mu.Unlock()
+	if !app {
+		select {
+		case c.libSet <- struct{}{}:
+		default:
+		}
+	}
+}
+
+type appKey struct{}
+
+// runGateNotify: the application takes the connection from HandshakeNotify(), reads its context and stores a
+// context derived from it (its own per-peer value). Whatever the order in which the library announces the
+// handshake and stores the peer's metadata, the application's handlers are served afterwards.
+func runGateNotify(id int) gateLine {
+	l := gateLine{Ev: "gate", ID: id, Side: "server", Cfg: "all", Hist: []string{"cer_ok", "ccr"}, Obs: []gateStep{}, Note: "notify"}
+	s := &smServer{SM: sm.New(srvSettings), ch: make(chan struct{}, 64), stop: make(chan struct{})}
+	registerApp(s, "all")
+	go func() {
+		for {
+			select {
+			case <-s.SM.ErrorReports():
+			case <-s.stop:
+				return
+			}
+		}
+	}()
+	defer close(s.stop)
+	sc := &schedConn{libSet: make(chan struct{}, 4), appRead: make(chan struct{})}
+	appDone := make(chan struct{})
+	go func() {
+		defer close(appDone)
+		select {
+		case c := <-s.SM.HandshakeNotify():
+			ctx := c.Context()
+			close(sc.appRead)
+			// give a library that stores its metadata only now the time to do so (a correct one did it before)
+			select {
+			case <-sc.libSet:
+			case <-time.After(30 * time.Millisecond):
+			}
+			sc.mu.Lock()
+			sc.byApp = true
+			sc.mu.Unlock()
+			c.SetContext(context.WithValue(ctx, appKey{}, "peer state of the application"))
+		case <-time.After(2 * time.Second):
+		}
+	}()
+	time.Sleep(10 * time.Millisecond) // the application is waiting for the notification (which is offered, not queued)
+	read := func(b []byte) *diam.Message {
+		m, err := diam.ReadMessage(bytes.NewReader(b), dict.Default)
+		if err != nil {
+			return nil
+		}
+		return m
+	}
+	nf, off := 0, 0
+	for k, name := range l.Hist {
+		if m := read(gateMsg(name, uint32(100+k))); m != nil {
+			s.SM.ServeDIAM(sc, m)
+		}
+		if name == "cer_ok" {
+			<-appDone
+			// drain the library's own SetContext signal, if it came before the notification
+			select {
+			case <-sc.libSet:
+			default:
+			}
+		}
+		st := gateStep{Fired: []int{}, Wrote: []gateWrote{}}
+		f := s.fired()
+		for _, r := range f[nf:] {
+			st.Fired = append(st.Fired, hidOf[r.Key])
+		}
+		nf = len(f)
+		sc.mu.Lock()
+		out := append([]byte(nil), sc.out...)
+		st.Closed = sc.closed
+		sc.mu.Unlock()
+		msgs, rest := splitMsgs(out[off:])
+		for _, m := range msgs {
+			rc, _ := m.u32(268)
+			st.Wrote = append(st.Wrote, gateWrote{Cmd: int(m.Cmd), RC: int(rc)})
+		}
+		off = len(out) - len(rest)
+		l.Obs = append(l.Obs, st)
+	}
+	return l
 }
